@@ -321,6 +321,52 @@ func checkC02(r *Run) {
 		return true
 	})
 	if sizeN == "" {
+		// the header is decoded by a private helper that the pinned tree does not have
+		// (size, t, tag := decodeHeader(&hdr)): the variable of recv that receives the result
+		// position in which the helper returns what Read32 yielded
+		ast.Inspect(recv.Decl.Body, func(n ast.Node) bool {
+			as, ok := n.(*ast.AssignStmt)
+			if !ok || len(as.Rhs) != 1 || sizeN != "" {
+				return true
+			}
+			call, ok := unparen(as.Rhs[0]).(*ast.CallExpr)
+			if !ok {
+				return true
+			}
+			tf := r.L.FuncOf(callee(info, call))
+			if tf == nil || tf.Decl.Body == nil || tf.Obj.Exported() || pinnedFuncs[tf.Key] || tf.Pkg != recv.Pkg {
+				return true
+			}
+			var v types.Object
+			ast.Inspect(tf.Decl.Body, func(n2 ast.Node) bool {
+				if as2, ok := n2.(*ast.AssignStmt); ok && len(as2.Lhs) == 1 && len(as2.Rhs) == 1 && v == nil {
+					if c, ok := unparen(as2.Rhs[0]).(*ast.CallExpr); ok && calleeKey(info, c) == "p9.buffer.Read32" {
+						v = objOf(info, as2.Lhs[0])
+					}
+				}
+				return true
+			})
+			if v == nil {
+				return true
+			}
+			idx, nret := -1, 0
+			inspectNoLit(tf.Decl.Body, func(n3 ast.Node) {
+				if ret, ok := n3.(*ast.ReturnStmt); ok {
+					nret++
+					for i, e := range ret.Results {
+						if objOf(info, unparen(e)) == v {
+							idx = i
+						}
+					}
+				}
+			})
+			if nret == 1 && idx >= 0 && idx < len(as.Lhs) {
+				sizeN = res.str(as.Lhs[idx])
+			}
+			return true
+		})
+	}
+	if sizeN == "" {
 		r.undecided("r2", "recv: size variable", recv.Decl.Pos(), "size := headerBuf.Read32() not found")
 		return
 	}
@@ -558,10 +604,25 @@ func checkC02(r *Run) {
 	r.alias = nil
 
 	// ---- r6: overrun flag ----
+	// (the flag is the only bool field of buffer, whatever it is called)
+	overrunField := "overflow"
+	if nt := r.L.namedType("p9", "buffer"); nt != nil {
+		if st, ok := nt.Underlying().(*types.Struct); ok {
+			var bools []string
+			for i := 0; i < st.NumFields(); i++ {
+				if b, isB := st.Field(i).Type().Underlying().(*types.Basic); isB && b.Kind() == types.Bool {
+					bools = append(bools, st.Field(i).Name())
+				}
+			}
+			if len(bools) == 1 {
+				overrunField = bools[0]
+			}
+		}
+	}
 	nw := 0
 	okOnlyTrue := true
 	for _, fa := range m.fields() {
-		if fa.Key == "p9.buffer.overflow" && fa.Write {
+		if fa.Key == "p9.buffer."+overrunField && fa.Write {
 			nw++
 			if as, ok := r.L.parent(fa.Sel).(*ast.AssignStmt); ok {
 				if tv := constValue(info, as.Rhs[0]); tv == nil || tv.String() != "true" || fa.Root.Key != "p9.buffer.markOverrun" {
